@@ -751,6 +751,103 @@ func (x *c12Ctx) blockMutations(s *chain.Sim, p chain.BlockPlan, rp map[string]a
 	}
 }
 
+// ---------------------------------------------------------------- the commitment binds the transaction lists
+
+// commitmentMutations: oracle on the real functions. "A block's id binds its entire content": the v2
+// commitment (State.Commitment) and the v1 Merkle root (Block.Header().Commitment of a v1 block) must
+// change when two transactions are swapped, the last one is dropped, one is duplicated, or a transaction
+// is moved from the v1 list to the v2 list (re-expressed as a v2 transaction with the same outputs,
+// arbitrary data and fee) or from the v2 list to the front of it / the miner address changes.
+func (x *c12Ctx) commitmentMutations(cs consensus.State, p chain.BlockPlan, rp map[string]any) {
+	res := x.c.Res
+	b := p.Block
+	v1, v2 := b.Transactions, b.V2Transactions()
+	check := func(mutation string, c0, c1 types.Hash256, same bool) {
+		res.Eval(fmt.Sprintf("commitment/%v/%v/%s", rp["seed"], rp["height"], mutation), true)
+		if same {
+			res.Count("commitment-mutation:" + mutation + ":no-op")
+			return
+		}
+		res.Count("commitment-mutation:" + mutation)
+		if c0 == c1 {
+			r2 := map[string]any{"mutation": mutation, "block": fw.Hex(chain.Encode(types.V2Block(b)))}
+			for k, v := range rp {
+				r2[k] = v
+			}
+			res.Violate(fw.Violation{Key: "c12-commitment-ignores:" + mutation, What: "the block commitment / Merkle root does not change under: " + mutation, Replay: r2, Expected: "different commitment", Observed: "same commitment " + c12H(c0)})
+		}
+	}
+	encEq := func(a, b types.EncoderTo) bool { return bytes.Equal(chain.Encode(a), chain.Encode(b)) }
+	if b.V2 != nil {
+		commit := func(t1 []types.Transaction, t2 []types.V2Transaction) types.Hash256 { return cs.Commitment(p.Miner, t1, t2) }
+		c0 := commit(v1, v2)
+		if len(v2) >= 2 {
+			i := x.rng.Intn(len(v2) - 1)
+			m := append([]types.V2Transaction(nil), v2...)
+			m[i], m[i+1] = m[i+1], m[i]
+			check("swap-v2", c0, commit(v1, m), encEq(v2[i], v2[i+1]))
+		}
+		if len(v2) >= 1 {
+			check("drop-last-v2", c0, commit(v1, v2[:len(v2)-1]), false)
+			i := x.rng.Intn(len(v2))
+			m := append(append([]types.V2Transaction(nil), v2[:i+1]...), v2[i:]...)
+			check("duplicate-v2", c0, commit(v1, m), false)
+		}
+		if len(v1) >= 2 {
+			i := x.rng.Intn(len(v1) - 1)
+			m := append([]types.Transaction(nil), v1...)
+			m[i], m[i+1] = m[i+1], m[i]
+			check("swap-v1", c0, commit(m, v2), encEq(v1[i], v1[i+1]))
+		}
+		if len(v1) >= 1 {
+			check("drop-last-v1", c0, commit(v1[:len(v1)-1], v2), false)
+			i := x.rng.Intn(len(v1))
+			m := append(append([]types.Transaction(nil), v1[:i+1]...), v1[i:]...)
+			check("duplicate-v1", c0, commit(m, v2), false)
+			// the last v1 transaction leaves the v1 list and is appended to the v2 list as a v2 transaction
+			t := v1[len(v1)-1]
+			var mv types.V2Transaction
+			mv.SiacoinOutputs, mv.SiafundOutputs = t.SiacoinOutputs, t.SiafundOutputs
+			for _, a := range t.ArbitraryData {
+				mv.ArbitraryData = append(mv.ArbitraryData, a...)
+			}
+			for _, f := range t.MinerFees {
+				mv.MinerFee = mv.MinerFee.Add(f)
+			}
+			check("move-v1-to-v2", c0, commit(v1[:len(v1)-1], append(append([]types.V2Transaction(nil), v2...), mv)), false)
+		}
+		if len(v1) >= 1 && len(v2) >= 1 {
+			// the boundary between the two lists moves while the sequence of leaves keeps its length
+			check("drop-last-v1+duplicate-first-v2", c0, commit(v1[:len(v1)-1], append([]types.V2Transaction{v2[0]}, v2...)), false)
+		}
+		other := p.Miner
+		other[x.rng.Intn(32)] ^= 1
+		check("miner-address", c0, cs.Commitment(other, v1, v2), false)
+	} else {
+		root := func(pay []types.SiacoinOutput, t []types.Transaction) types.Hash256 {
+			bb := types.Block{ParentID: b.ParentID, Nonce: b.Nonce, Timestamp: b.Timestamp, MinerPayouts: pay, Transactions: t}
+			return bb.Header().Commitment
+		}
+		c0 := root(b.MinerPayouts, v1)
+		if len(v1) >= 2 {
+			i := x.rng.Intn(len(v1) - 1)
+			m := append([]types.Transaction(nil), v1...)
+			m[i], m[i+1] = m[i+1], m[i]
+			check("v1-root:swap", c0, root(b.MinerPayouts, m), encEq(v1[i], v1[i+1]))
+		}
+		if len(v1) >= 1 {
+			check("v1-root:drop-last", c0, root(b.MinerPayouts, v1[:len(v1)-1]), false)
+			i := x.rng.Intn(len(v1))
+			m := append(append([]types.Transaction(nil), v1[:i+1]...), v1[i:]...)
+			check("v1-root:duplicate", c0, root(b.MinerPayouts, m), false)
+		}
+		if len(b.MinerPayouts) >= 1 {
+			check("v1-root:duplicate-payout", c0, root(append(append([]types.SiacoinOutput(nil), b.MinerPayouts...), b.MinerPayouts[0]), v1), false)
+			check("v1-root:drop-payout", c0, root(b.MinerPayouts[1:], v1), false)
+		}
+	}
+}
+
 // ---------------------------------------------------------------- the resolution-kind collision (known finding)
 
 // c12Collision builds two different v2 transactions with the same semantic encoding: B renews
@@ -951,10 +1048,10 @@ func runC12(c *fw.Ctx) {
 				for _, t := range b.Transactions {
 					encs = append(encs, c12Hex(chain.Encode(t)))
 				}
-				x.op("merkle-v1 "+strings.Join(encs, " "), c12H(hd.Commitment))
+				x.op(fmt.Sprintf("merkle-v1 %d ", len(b.MinerPayouts))+strings.Join(encs, " "), c12H(hd.Commitment))
 				res.Count("block:v1")
 			} else {
-				encs := []string{c12Hex(chain.Encode(cs)), c12H(p.Miner)}
+				encs := []string{c12Hex(chain.Encode(cs)), c12H(p.Miner), fmt.Sprint(len(b.Transactions))}
 				for _, t := range b.Transactions {
 					encs = append(encs, c12Hex(chain.Encode(t)))
 				}
@@ -964,6 +1061,7 @@ func runC12(c *fw.Ctx) {
 				x.op("commitment "+strings.Join(encs, " "), c12H(cs.Commitment(p.Miner, b.Transactions, b.V2Transactions())))
 				res.Count("block:v2")
 			}
+			x.commitmentMutations(cs, p, rp)
 			if k%2 == 0 {
 				x.blockMutations(s, p, rp, c.Budget(8, 40))
 			}
